@@ -73,8 +73,10 @@ def build_message(kind, peer, idx, salt):
         return b"verack", b""
     if kind == "version":
         ua = b"/c18:%d.%d/" % (peer, idx)
+        # the announced protocol version varies (the statement does not make the verack or later pongs depend on it)
+        pv = (70015, 70016, 70001, 60002, 60001, 60000, 31800, 209, 106, 0, 2**31 - 1, 2**32 - 1)[(salt >> 2) % 12]
         pl = W.version_payload(
-            70015, 1 + 8 * (salt & 1), 1600000000 + tag, (0, IP_ASCII, 18444), (1, IP_ASCII, 40000 + tag),
+            pv, 1 + 8 * (salt & 1), 1600000000 + tag, (0, IP_ASCII, 18444), (1, IP_ASCII, 40000 + tag),
             salt % 2**64, ua, 1 + tag, relay=bool(salt & 2),
         )
         return b"version", pl
